@@ -192,8 +192,11 @@ class RegionBoundingBox:
         ymin = self.iymin
         ymax = self.iymax
 
-        if xmin >= shape[1] or ymin >= shape[0] or xmax <= 0 or ymax <= 0:
+        if (xmin >= shape[1] or ymin >= shape[0] or xmax <= 0 or ymax <= 0
+                or xmin >= xmax or ymin >= ymax
+                or shape[0] <= 0 or shape[1] <= 0):
             # no overlap of the bounding box with the input shape
+            # (including an empty bounding box or a zero-sized array)
             return None, None
 
         slices_large = (slice(max(ymin, 0), min(ymax, shape[0])),
